@@ -257,6 +257,14 @@ def run_one(seed, preset=None, tier="quick", want_case=False):
     finally:
         forget(name)
         forget(twin)
+    wide_info = None
+    wt = tape.sub("wide")
+    if wt.chance(4):
+        # several very wide requests in flight together (each fine alone by construction of the oracle)
+        from simv.wide import run_wide
+        wv, wide_info = run_wide(wt, "%s_%d_wide" % (ID, seed), [wt.rint(350, 900) for _ in range(wt.rint(2, 3))],
+                                 scheduler=wt.choose(["random", "lifo", "fifo"]))
+        viol.extend(wv)
     r0 = base_result(tape, out, viol)
     r0["digest"] = run_digest(out.trace, out.events, [x.resp for x in reqs], [x.cancelled for x in reqs], repr(out.exc))
     r0["case_digest"] = run_digest(sdl, [(x.text, x.op_name, x.variables) for x in reqs])
@@ -283,6 +291,7 @@ def run_one(seed, preset=None, tier="quick", want_case=False):
         "refused_request_in_batch": int(any(":" in l and "faults" not in l for l in labels)),
         "shared_exception_two_requests": int(sum(1 for x in reqs if x.plan is not None and "raise_shared" in x.plan.faults_fired) >= 2),
         "cancelled_mid_flight": int(cancel is not None and reqs[cancel].cancelled and bool(reqs[cancel].rt.started)),
+        "wide_requests_together": int(wide_info is not None),
     }
     if want_case or viol:
         r0["case"] = {"sdl": sdl, "engine_config": cfg, "cache": cache, "scheduler": sch, "cancel": cancel,
